@@ -741,10 +741,13 @@ class C03(Check):
         "I2b": "bulk atomicity: a loop whose body writes must not be able to reject in a later iteration",
         "I3": "one name space: a store under a new key is dominated by _insert_id(key); each container removal is "
               "paired with _remove_id of the same key and vice versa",
+        "I5": "no method other than the cache builder writes into the memoised cache's containers: a name bound to a cache field is an "
+              "alias (level 0), a shallow copy (.copy(), dict(..), list(..)) still shares the inner containers (level 1); a store or mutating "
+              "call that reaches shared storage changes what every later query answers",
         "I4": "no public query hands out the memoised cache's own mutable containers (a caller editing the result would edit the "
               "cache and change later answers); copies, fresh comprehensions and scalars are fine",
     }
-    floors = {"I1": 25, "I2": 25, "I3": 25, "I4": 8}
+    floors = {"I1": 25, "I2": 25, "I3": 25, "I4": 8, "I5": 10}
     decided = [
         "every public mutator resets / rebuilds the memoised cache on every path that changes content",
         "a rejected single edit has written nothing before the rejection",
@@ -769,6 +772,7 @@ class C03(Check):
         if not {"_parameters", "_variables", "_reactions", "_derived"} <= m.content_fields:
             raise AnalysisError(f"content fields not recognised: {sorted(m.content_fields)}")
         self.i4(m)
+        self.i5(m)
         public = [
             n for n in m.methods
             if not n.startswith("_") and n in m.writes
@@ -841,6 +845,112 @@ class C03(Check):
             if not evs:
                 self.holds("I3", MOD, q, "ids-paired", fn, "every store/removal is paired with the name-space update")
 
+    def i5(self, m: "Machine") -> None:
+        """Alias levels: 0 = the cache's own container, 1 = shallow copy (inner containers shared)."""
+        for name, fn in m.methods.items():
+            if name == "_create_cache":
+                continue
+            cache_names = set()
+            for n in walk_no_nested(fn):
+                if isinstance(n, ast.NamedExpr) and norm(n.value) == "self._cache":
+                    cache_names.add(n.target.id)
+                if isinstance(n, ast.Assign) and isinstance(n.targets[0], ast.Name) and norm(n.value) in ("self._create_cache()", "self._cache"):
+                    cache_names.add(n.targets[0].id)
+            for a in fn.args.args + fn.args.kwonlyargs:
+                if a.arg == "cache":
+                    cache_names.add("cache")
+            if not cache_names:
+                continue
+            q = f"{CLS}.{name}"
+            level: dict[str, int] = {}
+
+            def lvl(e: ast.AST) -> int | None:
+                """alias level of expression e, None = fresh / unrelated."""
+                if isinstance(e, ast.Attribute) and isinstance(e.value, ast.Name) and e.value.id in cache_names:
+                    return 0
+                if isinstance(e, ast.Name) and e.id in level:
+                    return level[e.id]
+                if isinstance(e, ast.Subscript):
+                    b = lvl(e.value)
+                    return None if b is None else max(b - 1, 0)
+                if isinstance(e, ast.Call):
+                    f = e.func
+                    fn_name = norm(f)
+                    if fn_name in ("copy.deepcopy", "deepcopy"):
+                        return None
+                    if fn_name in ("dict", "list", "copy.copy", "set", "tuple") and e.args:
+                        b = lvl(e.args[0])
+                        return None if b is None else b + 1
+                    if isinstance(f, ast.Attribute) and f.attr == "copy":
+                        b = lvl(f.value)
+                        return None if b is None else b + 1
+                    if isinstance(f, ast.Attribute) and f.attr in ("get", "setdefault", "pop"):
+                        b = lvl(f.value)
+                        return None if b is None else max(b - 1, 0)
+                    if isinstance(f, ast.Attribute) and f.attr in ("items", "values"):
+                        b = lvl(f.value)
+                        return None if b is None else b  # iterating yields inner containers: handled at the loop
+                    if fn_name in ("cast", "typing.cast") and len(e.args) == 2:
+                        return lvl(e.args[1])
+                    return None
+                if isinstance(e, ast.BinOp) and isinstance(e.op, ast.BitOr):
+                    ls = [x for x in (lvl(e.left), lvl(e.right)) if x is not None]
+                    return (min(ls) + 1) if ls else None  # a | b is a new dict sharing the values
+                return None
+
+            changed = True
+            rounds = 0
+            while changed and rounds < 5:
+                changed = False
+                rounds += 1
+                for n in walk_no_nested(fn):
+                    pairs = []
+                    if isinstance(n, ast.Assign):
+                        pairs = [(t, n.value) for t in n.targets if isinstance(t, ast.Name)]
+                    elif isinstance(n, ast.NamedExpr):
+                        pairs = [(n.target, n.value)]
+                    for t, v in pairs:
+                        L = lvl(v)
+                        if L is not None and level.get(t.id, 99) > L:
+                            level[t.id] = L
+                            changed = True
+                    if isinstance(n, (ast.For, ast.comprehension)):
+                        b = lvl(n.iter)
+                        if b is not None:
+                            inner = max(b - 1, 0)
+                            tg = n.target
+                            val_targets = [tg.elts[1]] if isinstance(tg, ast.Tuple) and norm(n.iter).endswith(".items()") and len(tg.elts) == 2 else \
+                                ([tg] if norm(n.iter).endswith(".values()") else [])
+                            for vt in val_targets:
+                                for x in ast.walk(vt):
+                                    if isinstance(x, ast.Name) and level.get(x.id, 99) > inner:
+                                        level[x.id] = inner
+                                        changed = True
+            hits = []
+            for n in walk_no_nested(fn):
+                tgt = []
+                if isinstance(n, ast.Assign):
+                    tgt = [t for t in n.targets if isinstance(t, ast.Subscript)]
+                elif isinstance(n, ast.AugAssign) and isinstance(n.target, ast.Subscript):
+                    tgt = [n.target]
+                elif isinstance(n, ast.Delete):
+                    tgt = [t for t in n.targets if isinstance(t, ast.Subscript)]
+                for t in tgt:
+                    L = lvl(t.value)
+                    if L == 0:
+                        hits.append((t, f"`{norm(t)} = ..` stores into a container the cache owns"))
+                if isinstance(n, ast.Call) and isinstance(n.func, ast.Attribute) and n.func.attr in MUTATING and n.func.attr not in ("setdefault", "pop", "get"):
+                    L = lvl(n.func.value)
+                    if L == 0:
+                        hits.append((n, f"`{norm(n)[:60]}` mutates a container the cache owns"))
+            if hits:
+                node, why = hits[0]
+                self.violated("I5", MOD, q, "writes-into-cache", node,
+                              why + ": the memoised tables are changed by a query, so later queries (and the integrator) answer from polluted data",
+                              witness="a model with a state-dependent stoichiometric coefficient: get_stoichiometries(); then model(t, y) counts that flux twice")
+            else:
+                self.holds("I5", MOD, q, "writes-into-cache", fn, f"reads the cache through {sorted(cache_names)}; no store or mutation reaches cache-owned storage")
+
     def i4(self, m: "Machine") -> None:
         for name, fn in m.methods.items():
             if name.startswith("_") and name != "__call__":
@@ -887,6 +997,9 @@ class C03(Check):
             Variant("query-then-write", MOD, f"{CLS}.update_derived", "der = self._derived[name]\n",
                     "der = self._derived[name]\n    self.get_parameter_values()\n",
                     expect="I1|model.py|Model.update_derived|"),
+            Variant("query-shallow-copies-cache-table", MOD, f"{CLS}.get_stoichiometries", "stoich_by_cpds = copy.deepcopy(cache.stoich_by_cpds)", "stoich_by_cpds = cache.stoich_by_cpds.copy()",
+                    expect="I5|model.py|Model.get_stoichiometries|", quick=True),
+            Variant("call-accumulates-into-cache", MOD, f"{CLS}.__call__", "dxdt = dict.fromkeys(cache.var_names, 0.0)", "dxdt = cache.initial_conditions", expect="I5|model.py|Model.__call__|"),
             Variant("getter-returns-cache-dict", MOD, f"{CLS}.get_parameter_values", "return dict(cache.base_parameter_values)", "return cache.base_parameter_values",
                     expect="I4|model.py|Model.get_parameter_values|", quick=True),
             Variant("ic-getter-returns-cache-dict", MOD, f"{CLS}.get_initial_conditions", "return dict(cache.initial_conditions)", "return cache.initial_conditions",
